@@ -712,6 +712,59 @@ def h5_cmap(timeout=300, part=None, **kw):
                                                                         "faults": "%d replacement tokens at every position" % len(CMAP_BAD)}, timeout, concretize=conc, part=part)
 
 
+# ---- truncated / corrupted embedded font programs
+T1_HEADER = b"%!PS-AdobeFont-1.0: Foo 001.000\n/FontName /Foo def\n/Encoding 256 array\n0 1 255 {1 index exch /.notdef put} for\ndup 65 /B put\ndup 66 /A put\nreadonly def\ncurrentfile eexec\n"
+
+
+def tt_program():
+    from harness import C07
+    return bytes(C07.tt_font([(0x41, 0x42, 1, None), (0x50, 0x51, 0, 0)], [5, 6]))
+
+
+def fontfile_doc(kind, data):
+    if kind == "tt":                 # CID font with Adobe-Identity collection, no ToUnicode: the Unicode map comes from the embedded TrueType cmap
+        objs = seed_objects2()
+        objs[13] = dict(objs[13], FontFile2=Ref(40))
+        objs[40] = Stream({"Length1": len(data)}, data)
+        del objs[7]["ToUnicode"]
+    else:                            # Type 1 font without /Encoding: the built-in encoding is read from the font program's header
+        objs = seed_objects()
+        objs[3] = {"Type": "Font", "Subtype": "Type1", "BaseFont": "Foo", "FontDescriptor": Ref(41), "FirstChar": 65, "LastChar": 66, "Widths": [500, 600]}
+        objs[41] = {"Type": "FontDescriptor", "FontName": "Foo", "Flags": 4, "FontBBox": [0, 0, 1000, 1000], "FontFile": Ref(42)}
+        objs[42] = Stream({"Length1": len(data), "Length2": 0, "Length3": 0}, data)
+    return pdfgen.build(objs)
+
+
+def fontfile_fault(kind, mode, pos, v):
+    data = tt_program() if kind == "tt" else T1_HEADER
+    if mode == "cut":
+        return data[:pos], "%s font program cut to %d of %d bytes" % (kind, pos, len(data))
+    d = bytearray(data)
+    d[pos] = [0, 255, d[pos] ^ 1, d[pos] ^ 0x80][v]
+    return bytes(d), "%s font program with byte %d set to %d" % (kind, pos, d[pos])
+
+
+def h5_fontfile(timeout=300, part=None, **kw):
+    """the embedded TrueType (cmap table) and Type 1 (header) font programs truncated at every length and with every single byte set to 0 / 255 / one bit flipped (low, high)"""
+    sizes = {"tt": len(tt_program()), "t1": len(T1_HEADER)}
+
+    def fn(ex):
+        kind = ("tt", "t1")[ex.choice(2, "font")]
+        mode = ("cut", "byte")[ex.choice(2, "mode")]
+        pos = ex.int("pos", 0, sizes[kind] - (0 if mode == "cut" else 1)).__index__()
+        v = ex.choice(4, "value") if mode == "byte" else 0
+        data, what = fontfile_fault(kind, mode, pos, v)
+        r = run_extract(fontfile_doc(kind, data))
+        ex.require(r is None, "%s: %s" % (what, r), kind=kind, mode=mode, pos=pos, v=v)
+
+    def conc(m, info):
+        return {"what": "fontfile", "kind": info["kind"], "mode": info["mode"], "pos": info["pos"], "v": info["v"]}
+    from pdfminer import high_level
+    return core.run_symx("H5_content", fn, [high_level.extract_text], {"font programs": "generated TrueType file with a two-segment format-4 cmap (%d bytes); Type 1 header with an Encoding array (%d bytes)" % (sizes["tt"], sizes["t1"]),
+                                                                        "faults": "every truncation; every byte set to 0, 255, or with bit 0 / bit 7 flipped"}, timeout, concretize=conc, part=part,
+                         int_lo=0, int_hi=max(sizes.values()) + 1)
+
+
 # ------------------------------------------------------------------------------------------ replay: through extract_text where possible
 def _doc_with_stream(attrs, payload):
     objs = seed_objects()
@@ -807,6 +860,10 @@ def replay(harness, inp):
         apply_fault(objs, tuple(inp["site"]), inp["kind"])
         r = run_extract(pdfgen.build(objs), entry=inp.get("entry", "text"))
         return None if r is None else "seed document %d with object %d entry %s replaced by %s: %s" % (inp.get("seed", 1), inp["site"][0], "/".join(map(str, inp["site"][1:])), inp["kind"], r)
+    if what == "fontfile":
+        data, desc = fontfile_fault(inp["kind"], inp["mode"], inp["pos"], inp["v"])
+        r = run_extract(fontfile_doc(inp["kind"], data))
+        return None if r is None else "%s (%s): %s" % (desc, data.hex(), r)
     if what == "cmap":
         toks = list(CMAP_TOKENS)
         toks[inp["i"]] = CMAP_BAD[inp["j"]]
@@ -859,6 +916,8 @@ def jobs(tier):
         J.append(Job("H4_objstm:%d" % k, "h4_objstm", {"part": [k, 2, 5]}, 300, "H4_faults"))
     J.append(Job("H4_encrypt", "h4_encrypt", {}, 300, "H4_faults"))
     J.append(Job("H5_cmap", "h5_cmap", {}, 300, "H5_content"))
+    for k in range(2):
+        J.append(Job("H5_fontfile:%d" % k, "h5_fontfile", {"part": [k, 2, 4]}, 300, "H5_content"))
     for k in range(2):
         J.append(Job("H5_content:%d" % k, "h5_content", {"part": [k, 2, 4]}, 300, "H5_content"))
     if tier != "quick":
